@@ -186,4 +186,43 @@ Proof.
   - exact (Hw x' k' E').
 Qed.
 
+(* ---- a decidable sufficient test for RS: equal after collapsing every run to one marker ------------------- *)
+Fixpoint sq (inrun : bool) (t : text) : list (option N) :=
+  match t with
+  | [] => []
+  | c :: u => if inS S c then (if inrun then sq true u else None :: sq true u) else Some c :: sq false u
+  end.
+
+Lemma sq_run R v : forallb (inS S) R = true -> snext_t S v = false -> sq true (R ++ v) = sq false v.
+Proof.
+  intros FR Hv. induction R as [|r R IH].
+  - cbn [app]. destruct v as [|d v]; [reflexivity|]. cbn [RunInvDefs.snext_t] in Hv. cbn [sq]. rewrite Hv. reflexivity.
+  - cbn [forallb] in FR. apply andb_true_iff in FR. destruct FR as [Hr FR]. cbn [app sq]. rewrite Hr. apply IH, FR.
+Qed.
+
+Lemma sq_RS_len n : forall t t', length t <= n -> sq false t = sq false t' -> RS t t'.
+Proof.
+  induction n as [|n IH]; intros t t' Hl E.
+  - destruct t; [|cbn [length] in Hl; lia]. destruct t' as [|c' u']; [constructor|].
+    cbn [sq] in E. destruct (inS S c'); discriminate.
+  - destruct t as [|c u].
+    + destruct t' as [|c' u']; [constructor|]. cbn [sq] in E. destruct (inS S c'); discriminate.
+    + destruct (inS S c) eqn:Hc.
+      * (* a run *)
+        destruct (span_run u) as (R & v & -> & FR & Hv).
+        destruct t' as [|c' u']; [cbn [sq] in E; rewrite Hc in E; discriminate|].
+        destruct (inS S c') eqn:Hc'; [|cbn [sq] in E; rewrite Hc, Hc' in E; discriminate].
+        destruct (span_run u') as (R' & v' & -> & FR' & Hv').
+        cbn [sq] in E. rewrite Hc, Hc' in E. injection E as E. rewrite (sq_run R v FR Hv), (sq_run R' v' FR' Hv') in E.
+        change (c :: R ++ v) with ((c :: R) ++ v). change (c' :: R' ++ v') with ((c' :: R') ++ v').
+        apply RS_run; try discriminate; try assumption; try (cbn [forallb]; rewrite ?Hc, ?Hc'; assumption).
+        apply IH; [|exact E]. cbn [length] in Hl. rewrite app_length in Hl. lia.
+      * destruct t' as [|c' u']; [cbn [sq] in E; rewrite Hc in E; discriminate|].
+        cbn [sq] in E. rewrite Hc in E. destruct (inS S c') eqn:Hc'; [discriminate|].
+        injection E as <- E. apply RS_char; [exact Hc|]. apply IH; [cbn [length] in Hl; lia | exact E].
+Qed.
+
+Theorem sq_RS t t' : sq false t = sq false t' -> RS t t'.
+Proof. apply (sq_RS_len (length t)). lia. Qed.
+
 End RunLex.
